@@ -1688,5 +1688,64 @@ func (p *Prog) CalleeCases(call *ssa.Call, val bool) ([]FactSet, map[ssa.Value]s
 	return out, subst
 }
 
+// TupleCase is one way in which a multi-result helper can return a given boolean in one of its results: the facts
+// (over the helper's own values) that hold then, and the values returned alongside.
+type TupleCase struct {
+	Facts FactSet
+	Rets  []ssa.Value
+}
+
+// CalleeTupleCases is CalleeCases for helpers of the form `func(...) (T, bool)`: the ways in which result j of the
+// in-module function called by `call` can be `val`, each with the other values returned on that path.
+func (p *Prog) CalleeTupleCases(call *ssa.Call, j int, val bool) []TupleCase {
+	h := Callee(call)
+	if h == nil || !InModule(h) || h.Blocks == nil || j >= h.Signature.Results().Len() {
+		return nil
+	}
+	if b, ok := h.Signature.Results().At(j).Type().Underlying().(*types.Basic); !ok || b.Kind() != types.Bool {
+		return nil
+	}
+	var out []TupleCase
+	for _, ret := range ReturnsOf(h) {
+		vals := RetVals(ret)
+		if j >= len(vals) {
+			return nil
+		}
+		var cases func(rv ssa.Value, base FactSet, depth int)
+		cases = func(rv ssa.Value, base FactSet, depth int) {
+			if c, isConst := ConstBool(rv); isConst {
+				if c == val {
+					out = append(out, TupleCase{p.RefineFacts(base), vals})
+				}
+				return
+			}
+			if ph, ok := rv.(*ssa.Phi); ok && depth < 4 && !Reaches(ph.Block(), ph.Block(), false) {
+				efs := p.PhiEdgeFacts(ph)
+				for i, e := range ph.Edges {
+					merged := FactSet{}
+					for f := range base {
+						merged[f] = true
+					}
+					if i < len(efs) {
+						for f := range efs[i] {
+							merged[f] = true
+						}
+					}
+					cases(e, merged, depth+1)
+				}
+				return
+			}
+			tmp := FactSet{}
+			for f := range base {
+				tmp[f] = true
+			}
+			addCond(tmp, rv, val)
+			out = append(out, TupleCase{p.RefineFacts(tmp), vals})
+		}
+		cases(vals[j], p.FactsAt(ret), 0)
+	}
+	return out
+}
+
 // Outer returns the outermost enclosing function of fn.
 func Outer(fn *ssa.Function) *ssa.Function { return outer(fn) }
